@@ -52,6 +52,7 @@ fixed("C09", "eq sens id-*", "d6489cd", "collection Equals ignored a failed conv
 # ---- C10
 fixed("C10", "recipients Block panic@removeFromCollection nil-entry", "1a20acb", "Recipients() of a Block whose lists hold a nil entry panicked", "pairs layer: Activity[Block] To=[nil]")
 fixed("C10", "recipients Block panic@(*Actor).GetID", "2fb4e33", "Recipients() of a Block whose lists hold a nil *Actor (or whose blocked object is a nil pointer) panicked: the entries were tested with == nil", "near layer: Activity[Block] To=[nilptr#3]")
+fixed("C10", "recipients * list-after * shared-slice", "834740e", "with one slice assigned to two of the value's lists (To and CC from the same variable), removing the repeated mentions from the later list shifted entries inside the shared backing array and overwrote the first mentions the earlier list keeps", "shared layer: Place To=CC=[iri#0 iri#0 nil]")
 # ---- C18
 fixed("C18", "copy *.Duration only-to", "89acbac", "inverted guard: duration of `to` zeroed when `from` has none, and never taken when set", "cell: Object.Duration only-to pos")
 fixed("C18", "copy *.Source only-to", "61c2ed3", "a source with a media type set only in `to` was replaced by from's empty source", "cell: Object.Source only-to source-full")
